@@ -533,6 +533,27 @@ func judge(r *vh.Run, res *result) {
 					// a later acquisition: the fetch arrived after the confirming FlushAcks returned, or (a parked
 					// fetch acquires after it arrived) the delivery count went up in a run without session resets
 					later := a.Clock > fl.Ret || (kills == 0 && int32(a.R.DC) > d.DC)
+					// A higher delivery count alone does not place the acquisition after the confirmation
+					// when the broker was told to give the offset up in between: an acknowledgement of
+					// this member naming the offset (typically the release of an earlier delivery's
+					// record, acknowledged late) that arrived after this delivery had been handed to the
+					// application's poll and before the fetch in question. The offset was then acquired
+					// again BEFORE the accept / reject was decided, which the property does not forbid.
+					if later && a.Clock <= fl.Ret {
+						for _, b := range blog {
+							if b.Member != m.Name || b.Clock >= a.Clock || b.Clock >= f.At {
+								continue
+							}
+							for _, ab := range b.Acks[d.P] {
+								if ab.First <= d.Offset && d.Offset <= ab.Last && ab.typeAt(d.Offset) != 4 && b.Clock > acquiredAt(blog, m.Name, d.P, d.Offset, d.DC, d.RetClock) {
+									later = false
+								}
+							}
+						}
+						if !later {
+							r.Count("reacquired_before_the_accept_after_an_intervening_acknowledgement_dontcare", 1)
+						}
+					}
 					if later && a.R.First <= d.Offset && d.Offset <= a.R.Last {
 						sig := "record delivered again after its accept/reject was confirmed without error"
 						// which request carried the acknowledgement? piggybacked on a ShareFetch = the shape in
@@ -715,4 +736,22 @@ func cbTail(m *memberLog, upto int64) []string {
 		out = out[len(out)-25:]
 	}
 	return out
+}
+
+
+// acquiredAt returns the clock of the ShareFetch in which the broker acquired (p, offset) for
+// member with the given delivery count, at or before the poll that returned it (0 if not found).
+func acquiredAt(blog []*breq, member string, p int32, offset int64, dc int32, retClock int64) int64 {
+	var at int64
+	for _, b := range blog {
+		if b.Member != member || b.Clock > retClock {
+			continue
+		}
+		for _, a := range b.Acq[p] {
+			if a.First <= offset && offset <= a.Last && int32(a.DC) == dc {
+				at = b.Clock
+			}
+		}
+	}
+	return at
 }
